@@ -185,7 +185,56 @@ def roundtrip_case(draw):
                           case=draw(st.booleans()), space=draw(st.booleans()), comments=draw(st.booleans()),
                           uplus=draw(st.booleans()), numforms=draw(st.booleans()))
         texts.append(bql.statement(s, style) + draw(st.sampled_from(['', '', ';', ' ;', '\n', ' ; trailing comment'])))
-    return {'stmt': s, 'texts': texts}
+    return {'stmt': s, 'texts': texts, 'variant': draw(st.booleans())}
+
+
+def swap_string_case(s):
+    """The same statement with the letter case of every string constant swapped (a different statement)."""
+    def ex(e):
+        k = e[0]
+        if k == 'const':
+            return ['const', e[1], e[2].swapcase()] if e[1] == 'str' else e
+        if k == 'list':
+            return ['list', [ex(x) for x in e[1]]]
+        if k == 'subq':
+            return ['subq', st_(e[1])]
+        if k in ('and', 'or'):
+            return [k, [ex(a) for a in e[1]]]
+        if k == 'fn':
+            return ['fn', e[1], [ex(a) for a in e[2]]]
+        if k == 'item':
+            return ['item', ex(e[1]), e[2].swapcase()]
+        if k in ('col', 'ph', 'star'):
+            return e
+        return [k] + [ex(x) if isinstance(x, list) else x for x in e[1:]]
+
+    def frm(f):
+        if f is None or f[0] == 'table':
+            return f
+        if f[0] == 'subq':
+            return ('subq', st_(f[1]))
+        return ('expr', None if f[1] is None else ex(f[1])) + tuple(f[2:])
+
+    def st_(s):
+        out = dict(s)
+        if s['kind'] == 'select':
+            if s['targets'] != '*':
+                out['targets'] = [(ex(e), a) for e, a in s['targets']]
+            for key in ('where', 'having'):
+                if s.get(key) is not None:
+                    out[key] = ex(s[key])
+            if s.get('group_by') is not None:
+                out['group_by'] = [k if isinstance(k, int) else ex(k) for k in s['group_by']]
+            if s.get('order_by') is not None:
+                out['order_by'] = [(k if isinstance(k, int) else ex(k), d) for k, d in s['order_by']]
+        else:
+            if s.get('where') is not None:
+                out['where'] = ex(s['where'])
+            if s.get('account') is not None:
+                out['account'] = s['account'].swapcase()
+        out['from'] = frm(s.get('from'))
+        return out
+    return st_(s)
 
 
 # ---------------------------------------------------------------------------- oracles
@@ -206,7 +255,13 @@ def ast_equal(a, b):
 
 
 def shipped(text):
+    """The generated parser class with the package's semantic actions (differential part)."""
     return beanquery.parser.parser.BQLParser().parse(text, semantics=beanquery.parser.BQLSemantics())
+
+
+def public_parse(text):
+    """The public entry point, beanquery.parser.parse (round-trip part)."""
+    return beanquery.parser.parse(text)
 
 
 _MODEL = []
@@ -316,7 +371,7 @@ def prop_roundtrip(sh, case):
     want = bql.to_ast(s)
     for i, text in enumerate(case['texts']):
         try:
-            got = shipped(text)
+            got = public_parse(text)
         except Exception as exc:  # noqa: BLE001
             name = type(exc).__name__
             sig = 'roundtrip:rejected' if 'Failed' in name or 'Parse' in name else exc_sig(exc, 'roundtrip')
@@ -327,6 +382,20 @@ def prop_roundtrip(sh, case):
                 fails.append(('roundtrip:list-null-dropped', f'{text!r} parsed {got!r}'))
                 continue
             fails.append(('roundtrip:different-ast', f'style {i}: {text!r}\n parsed {got!r}\n wanted {want!r}'))
+    if case.get('variant'):
+        # a statement differing only in the letter case inside string constants is a different statement:
+        # parsed right after the original (same process), it must give its own AST
+        s2 = swap_string_case(s)
+        want2 = bql.to_ast(s2)
+        text2 = bql.statement(s2)
+        if text2 != case['texts'][0]:
+            try:
+                got2 = public_parse(text2)
+                if not ast_equal(got2, want2):
+                    fails.append(('roundtrip:string-case-variant', f'{text2!r} (parsed after {case["texts"][0]!r})\n parsed {got2!r}\n wanted {want2!r}'))
+            except Exception as exc:  # noqa: BLE001
+                fails.append(('roundtrip:string-case-variant-rejected', f'{text2!r}: {exc!r}'))
+            sh.count('string_case_variants')
     pairs, forms = shape(s)
     nested = {p for p in pairs if p[0] != p[1]}
     extra_forms = {f for f in forms if not f.startswith('stmt:') and f not in ('from:table', 'targets:*', 'lit:int')}
@@ -433,12 +502,89 @@ def prop_codegen(sh, case):
     return []
 
 
-PARTS = {'roundtrip': prop_roundtrip, 'diff': prop_diff, 'codegen': prop_codegen}
+def node_of(kind, operands):
+    """An expression of the given kind over the given operand expressions (as many as it takes)."""
+    a = operands
+    if kind in ('neg', 'not', 'isnull', 'isnotnull'):
+        return [kind, a[0]]
+    if kind in BIN:
+        return [kind, a[0], a[1]]
+    if kind == 'between':
+        return ['between', a[0], a[1], a[2]]
+    if kind in ('and', 'or'):
+        return [kind, [a[0], a[1]]]
+    if kind == 'fn':
+        return ['fn', 'f', [a[0], a[1]]]
+    if kind == 'attr':
+        return ['attr', a[0], 'x']
+    if kind == 'item':
+        return ['item', a[0], 'k']
+    raise ValueError(kind)
+
+
+ARITY = {'neg': 1, 'not': 1, 'isnull': 1, 'isnotnull': 1, 'between': 3, 'and': 2, 'or': 2, 'fn': 2, 'attr': 1, 'item': 1}
+PARENTS = ['neg', 'not', 'isnull', 'isnotnull', 'between', 'and', 'or', 'fn', 'attr', 'item'] + BIN
+LEAVES = [['col', 'a'], ['col', 'b'], ['col', 'c']]
+
+
+def matrix_cases():
+    """Every parent operator x child operator x operand position (the child over plain columns), and every
+    parent x child x grandchild chain through the first operand position."""
+    out = []
+    atoms = {'const': ['const', 'int', 7], 'list': ['list', [['const', 'int', 1], ['const', 'str', 'x']]], 'ph': ['ph', None],
+             'call': ['fn', 'g', []], 'star-call': ['fn', 'count', [['star']]], 'date': ['const', 'date', datetime.date(2020, 1, 2)],
+             'decimal': ['const', 'decimal', Decimal('1.50')], 'null': ['const', 'null', None], 'true': ['const', 'bool', True]}
+    for parent in PARENTS:
+        n = ARITY.get(parent, 2)
+        for pos in range(n):
+            children = [(k, node_of(k, LEAVES)) for k in PARENTS] + list(atoms.items())
+            for cname, child in children:
+                if parent in ('attr', 'item') and child[0] not in ('col', 'fn', 'ph', 'attr', 'item'):
+                    continue        # the operand of . and [] is a primary
+                operands = list(LEAVES)
+                operands[pos] = child
+                out.append((f'{parent}>{cname}@{pos}', node_of(parent, operands)))
+    for p1 in PARENTS:
+        for p2 in PARENTS:
+            for p3 in ('neg', 'not', 'add', 'mul', 'eq', 'and', 'or', 'isnull', 'in'):
+                inner = node_of(p3, LEAVES)
+                if p2 in ('attr', 'item') or p1 in ('attr', 'item'):
+                    continue
+                mid = node_of(p2, [inner] + LEAVES[1:])
+                out.append((f'{p1}>{p2}>{p3}', node_of(p1, [mid] + LEAVES[1:])))
+    return out
+
+
+def prop_matrix(sh, case):
+    """case = {'slice': [i, n]}"""
+    fails = []
+    i0, n = case['slice']
+    import random
+    cases = matrix_cases()
+    if sh.tier == 'quick':
+        # all depth-2 combinations; one eighth of the depth-3 chains, rotating with the seed
+        cases = [c for j, c in enumerate(cases) if c[0].count('>') == 1 or (j + sh.seed) % 8 == 0]
+    for label, e in cases[i0::n]:
+        for clause in ('target',):
+            s = bql.select([(e, None)]) if clause == 'target' else bql.select([(['col', 'z'], None)], None, e)
+            texts = [bql.statement(s), bql.statement(s, bql.Style(gen.Rnd(random.Random(hash(label) % 1000)), parens=0.3, case=True, space=True))]
+            c = {'stmt': s, 'texts': texts}
+            for sig, detail in prop_roundtrip(sh, c):
+                fails.append((f'matrix:{sig}', f'{label}: {detail}'))
+        sh.count('matrix_expressions')
+    return fails
+
+
+PARTS = {'roundtrip': prop_roundtrip, 'diff': prop_diff, 'codegen': prop_codegen, 'matrix': prop_matrix}
 
 
 def run(sh):
     if sh.index == 0:
         for sig, detail in prop_codegen(sh, None):
             sh.fail(sig, detail, None, 'codegen')
+    case = {'slice': [sh.index, sh.n]}
+    for sig, detail in prop_matrix(sh, case):
+        sh.fail(sig, detail, case, 'matrix')
+    sh.extra['matrix_exhaustive_over'] = 'parent x child x position (depth 2) and parent x child x grandchild chains (first operand)'
     sh.search('roundtrip', roundtrip_case(), prop_roundtrip, quick=1600, thorough=60000)
     sh.search('diff', diff_case(), prop_diff, quick=1600, thorough=60000)
